@@ -22,7 +22,7 @@ use crate::error::*;
 #[derive(Clone)]
 pub struct StringLexer<'a> {
     pos: usize, // points to next byte
-    nested: i32, // How far in () we are nested
+    nested: i64, // How far in () we are nested (at most one level per byte read: cannot overflow)
     buf: &'a [u8],
 }
 
